@@ -25,4 +25,5 @@ CONSTANTS
   CurSeeks = FALSE
   BucketOps = TRUE
   PreBuckets <- NoPaths
+  PreCache <- NoKeys
 INVARIANTS TypeOK Disjoint Atomicity Isolation PrefixDurability ReopenOK
